@@ -592,7 +592,7 @@ pub static C09: PropSpec = PropSpec {
     id: "C09",
     simulator: "S-sim",
     level: "exploration",
-    runs: |t| if t == Tier::Thorough { 3_000_000 } else { 200_000 },
+    runs: |t| if t == Tier::Thorough { 30_000_000 } else { 200_000 },
     enumerated: |_| 0,
     run,
     rule: "server hello advertises a seeded subset of the RFC 6241 capabilities (every combination of url schemes) and optionally the Junos capability; 1-5 requests per session drawn from every builder with every datastore / filter / option / parameter combination (non-default values only where the default is not serialised). Non-trivial = at least one request was within the advertised set; distinct = distinct event-log hash (capability set + request sequence)",
